@@ -1,5 +1,6 @@
 (* Props_C15.v — C15: dissemination accounting for cluster updates. *)
-From Foca Require Import Laws BcastM FocaM L_Bcast L_Fill L_Members L_MembersInv Inv Reach L_Wire L_Dissem.
+From Foca Require Import Laws BcastM FocaM L_Bcast L_Fill L_Members L_MembersInv Inv Reach L_Wire L_Dissem L_BacklogOps.
+From Coq Require Import Relations.
 From Coq Require Import Sorted.
 
 Section C15.
@@ -70,8 +71,29 @@ Theorem C15_no_broadcast_untouched (rnd : oracle) (u : member Id) (s : @rs Id Ad
   updates (st (fst (apply_update rnd u false s))) = updates (st s).
 Proof. exact (apply_update_no_broadcast rnd u s). Qed.
 
+(* OVER EVERY CALL (any input, any oracle): the backlog of cluster updates changes only through
+   accepting an update (add_or_replace: C15_latest_only) and through one fill per piggybacking
+   datagram (C15_fill_spec: written entries lose one transmission and leave at zero) - so an
+   update leaves the backlog only by having been written max_transmissions times or by being
+   superseded by a fresher update for the same address *)
+Theorem C15_backlog_operations (l l' : backlog Addr) :
+  ustep l l' <->
+  (exists k d tx, l' = add_or_replace Addr addr_eqb l k d tx)
+  \/ (exists hint room w n, fill_gen Addr 0 hint l room u16_max = (w, n, l', None)).
+Proof.
+  split.
+  - intros H. destruct H as [l k d tx|l hint room w n kept FG]; [left; eauto|right; eauto].
+  - intros [(k & d & tx & ->)|(hint & room & w & n & FG)]; [constructor|econstructor; exact FG].
+Qed.
+
+Theorem C15_backlog_changes_only_so (rnd : oracle) (f : @foca Id Addr HO) (i : @input Id) :
+  clos_refl_trans _ ustep (updates f) (updates (fst (fst (fst (step rnd f i))))).
+Proof. exact (proj1 (step_backlogs rnd f i)). Qed.
+
 End C15.
 
+Print Assumptions C15_backlog_operations.
+Print Assumptions C15_backlog_changes_only_so.
 Print Assumptions C15_backlog_invariant.
 Print Assumptions C15_latest_only.
 Print Assumptions C15_fill_spec.
